@@ -48,6 +48,27 @@ def _copy_tree(dst: Path) -> None:
     shutil.copytree(src, dst / "xdsl", ignore=shutil.ignore_patterns("__pycache__", "*.pyc"))
 
 
+def _seed_worker(arg) -> tuple[str, str, list, list[str]]:
+    """one seeded change: copy the analysed tree, apply the patch, run the property's rules on it (separate process)"""
+    import importlib
+
+    name, patch, tmp, prop, modname = arg
+    var = Path(tmp) / f"var_{name}"
+    var.mkdir()
+    try:
+        _copy_tree(var)
+        pr = subprocess.run(["git", "apply", str(patch)], cwd=var, capture_output=True, text=True)
+        if pr.returncode != 0:
+            return name, "noapply", [], [pr.stderr.strip()[:120]]
+        try:
+            got, errs = _run(importlib.import_module(modname), var, prop)
+        except AnalysisError as e:
+            return name, "ran", [], [str(e)]
+        return name, "ran", sorted(got), errs
+    finally:
+        shutil.rmtree(var, ignore_errors=True)
+
+
 def _twin_worker(arg) -> tuple[int, list, list[str]]:
     """one metamorphic twin: copy the analysed tree, rewrite it, run the property's rules on it (separate process)"""
     import importlib
@@ -125,22 +146,24 @@ def run_for(prop: str, mod, rep: Report) -> None:
                 m = json.loads(meta.read_text())
                 if prop in m.get("detected_by", []) and (d / "patch.diff").exists():
                     seeds.append((d.name, d / "patch.diff"))
-        for name, patch in seeds:
-            var = tmp / f"var_{name}"
-            var.mkdir()
-            _copy_tree(var)
-            pr = subprocess.run(["git", "apply", str(patch)], cwd=var, capture_output=True, text=True)
-            if pr.returncode != 0:
-                r.notes.append(f"seeded change {name} no longer applies to the current tree (skipped): {pr.stderr.strip()[:120]}")
-                shutil.rmtree(var, ignore_errors=True)
-                continue
-            got, errs = _run(mod, var, prop)
-            new = sorted(got - base)
-            if new:
-                r.ok(f"seeded:{name}", f"seeded change {name}: reported as {new[0][0]} [{new[0][2][:50]}]")
-            else:
-                raise AnalysisError(f"self-test: seeded change {name} is no longer detected by the {prop} rules (analysis errors: {errs[:1]})")
-            shutil.rmtree(var, ignore_errors=True)
+        import concurrent.futures as _cf2
+        import multiprocessing as _mp2
+
+        lost = None
+        if seeds:
+            with _cf2.ProcessPoolExecutor(max_workers=min(len(seeds), max(1, (os.cpu_count() or 2) // 2)), mp_context=_mp2.get_context("fork")) as ex:
+                results = list(ex.map(_seed_worker, [(name, str(patch), str(tmp), prop, mod.__name__) for name, patch in seeds]))
+            for name, status, got_l, errs in results:
+                if status == "noapply":
+                    r.notes.append(f"seeded change {name} no longer applies to the current tree (skipped): {errs[:1]}")
+                    continue
+                new = sorted({tuple(x) for x in got_l} - base)
+                if new:
+                    r.ok(f"seeded:{name}", f"seeded change {name}: reported as {new[0][0]} [{new[0][2][:50]}]")
+                elif lost is None:
+                    lost = (name, errs)
+        if lost is not None:
+            raise AnalysisError(f"self-test: seeded change {lost[0]} is no longer detected by the {prop} rules (analysis errors: {lost[1][:1]})")
         rep.extra["selftest_seeded_variants"] = len(seeds)
     finally:
         shutil.rmtree(tmp, ignore_errors=True)
